@@ -120,6 +120,9 @@ func (s *strConvAccErr) AtofInf(key, val string) float64 {
 }
 
 // ParseSegStatusCodes parses a command line [{cycle:30, rsq: 0, code: 404, rep:video}]
+// maxStatusCodeCycleS is the longest status code cycle (a year).
+const maxStatusCodeCycleS = 366 * 24 * 3600
+
 func (s *strConvAccErr) ParseSegStatusCodes(key, val string) []SegStatusCodes {
 	if s.err != nil {
 		return nil
@@ -160,6 +163,10 @@ func (s *strConvAccErr) ParseSegStatusCodes(key, val string) []SegStatusCodes {
 		}
 		if codes[i].Cycle <= 0 {
 			s.err = fmt.Errorf("val=%q for key %q is not a valid. cycle is too small", val, key)
+		}
+		if codes[i].Cycle > maxStatusCodeCycleS {
+			// cycle x timescale must not overflow (2^60 x 90000 is 0 in 64 bits and is divided by)
+			s.err = fmt.Errorf("val=%q for key %q is not a valid. cycle is too big", val, key)
 		}
 		if codes[i].Rsq < 0 {
 			s.err = fmt.Errorf("val=%q for key %q is not a valid. rsq is too small", val, key)
